@@ -2,13 +2,18 @@
 (* Scenario generator for C14: behaviours of Subscriber with a history variable.  A scenario is *)
 (* a duty oracle built duty by duty (at most SetupLen duties), followed by a history of          *)
 (* Subscribe (ok / failing) / Head (plain / re-org = refresh) / Resub (a re-subscription in      *)
-(* flight completes: ok / failing) / Duty (the oracle changes: add / drop) / Advance / Attest    *)
+(* flight completes: ok / failing) / Duty (the oracle changes: add / drop / move = the validator *)
+(* keeps its slot but lands in another committee or in one of another length / resize = the      *)
+(* committee has another length) / Fetch (a re-subscription in flight fetches the duties and is  *)
+(* held inside the attestation aggregator, at the signer, for slot hs) / Finish (that call       *)
+(* returns) / Advance / Attest                                                                   *)
 (* steps; it is printed as JSON when it has ScenLen steps and replayed on the real subscriber,   *)
 (* aggregator and controller by the Go driver.                                                   *)
 EXTENDS Subscriber, Json, Randomization
 
 CONSTANTS ScenLen, SetupLen,
-          SetupFan   \* candidates offered per setup step (a random sample of DutySpace keeps simulation fast)
+          SetupFan,  \* candidates offered per setup step (a random sample of DutySpace keeps simulation fast)
+          MoveFan    \* weight of the re-orgs that keep the slot (candidates offered per step; 0: none)
 VARIABLE hist
 svars == <<vars, hist>>
 
@@ -22,9 +27,24 @@ DutyRec(op, d) == [ev |-> "Duty", op |-> op, v |-> d.v, slot |-> d.slot, committ
 \* thins out a branch of the generator: true once in n evaluations (the generator runs in simulation mode)
 Coin(n) == RandomElement(1..n) = 1
 
+MoveRec(d, e) == [ev |-> "Duty", op |-> "move", v |-> e.v, slot |-> e.slot, committee |-> e.committee,
+                  size |-> e.size, h |-> e.h, ocommittee |-> d.committee, osize |-> d.size]
+
+\* the re-orgs the generator prefers: the rule's answer for the validator changes with the length
+Flips(d, z) == DutyAggregates(d, target) # IsAggregator(d.h, z, target)
+
+MoveCands == {<<d, [d EXCEPT !.committee = c, !.size = z]>> : d \in duties, c \in Committees, z \in Sizes}
+FlipMoves == {m \in MoveCands : Flips(m[1], m[2].size)}
+ResizeCands == {<<s, c, z>> \in SlotSpace \X Committees \X Sizes : \E d \in DutiesAt(duties, s, c) : d.size # z}
+FlipResizes == {r \in ResizeCands : \E d \in DutiesAt(duties, r[1], r[2]) : Flips(d, r[3])}
+
+Some(n, X) == IF X = {} THEN {} ELSE RandomSubset(IF n < Cardinality(X) THEN n ELSE Cardinality(X), X)
+
 \* the stimulus only: which validator of a pair is stored is the implementation's choice
-SSubscribe == \E I \in SUBSET Entries(duties, target) : SubscribeWith(I, I)
-SResub == \E I \in SUBSET Entries(duties, target) : ResubOk(I, I)
+SSubscribe(F) == \E I \in SUBSET Entries(Signed(duties, F), target) : SubscribeWithF(I, I, F)
+SResub(F) == \E I \in SUBSET Entries(Signed(duties, F), target) : ResubOkF(I, I, F)
+\* the signer refuses the selection call of a slot that has a duty (thinned out)
+SFails == {{}} \cup (IF SignerMayFail /\ Coin(3) THEN {{s} : s \in {d.slot : d \in duties}} ELSE {})
 
 SNext ==
     /\ Len(hist) <= ScenLen
@@ -33,15 +53,25 @@ SNext ==
           /\ \E d \in RandomSubset(SetupFan, DutySpace) : AddDuty(d) /\ H(DutyRec("add", d))
        \/ /\ duties # {}
           /\ \/ \E t \in Nows : Advance(t) /\ H([ev |-> "Advance", now |-> t])
-             \/ SSubscribe /\ H([ev |-> "Subscribe", fail |-> FALSE])
+             \/ \E F \in SFails : SSubscribe(F) /\ H([ev |-> "Subscribe", fail |-> FALSE, sfail |-> F])
              \/ Coin(3) /\ SubscribeFail /\ H([ev |-> "Subscribe", fail |-> TRUE])
              \/ Refresh /\ H([ev |-> "Head", reorg |-> TRUE])
              \/ Coin(2) /\ started /\ (Housekeep \/ UNCHANGED vars) /\ H([ev |-> "Head", reorg |-> FALSE])
-             \/ SResub /\ H([ev |-> "Resub", fail |-> FALSE])
+             \/ \E F \in SFails : SResub(F) /\ H([ev |-> "Resub", fail |-> FALSE, sfail |-> F])
              \/ ResubFail /\ H([ev |-> "Resub", fail |-> TRUE])
              \* a re-org changes the oracle (thinned out: one random candidate, one random duty dropped)
              \/ Coin(2) /\ started /\ \E d \in RandomSubset(1, DutySpace) : AddDuty(d) /\ H(DutyRec("add", d))
              \/ Coin(2) /\ \E d \in RandomSubset(1, duties) : DropDuty(d) /\ H(DutyRec("drop", d))
+             \* a re-org that leaves a validator its slot: mostly one that changes the rule's answer
+             \/ /\ MoveFan > 0 /\ started
+                /\ \/ \E m \in Some(MoveFan, FlipMoves) : MoveDuty(m[1], m[2]) /\ H(MoveRec(m[1], m[2]))
+                   \/ \E m \in Some(1, MoveCands) : MoveDuty(m[1], m[2]) /\ H(MoveRec(m[1], m[2]))
+                   \/ \E r \in Some(MoveFan, FlipResizes) \cup Some(1, ResizeCands) :
+                          /\ ResizePair(r[1], r[2], r[3])
+                          /\ H([ev |-> "Duty", op |-> "resize", slot |-> r[1], committee |-> r[2], size |-> r[3]])
+             \* a re-subscription in flight fetches and is held inside the aggregator; the held call returns
+             \/ \E hs \in SlotSpace : ResubFetch(hs) /\ H([ev |-> "Fetch", hs |-> hs])
+             \/ \E c \in held : (\E I \in SUBSET Entries(c.snap, target) : HeldFinish(c, I, I)) /\ H([ev |-> "Finish", id |-> c.id])
              \/ \E s \in SlotSpace : \E C \in SUBSET Committees : \E ok \in BOOLEAN :
                     AttestJob(s, C, ok) /\ H([ev |-> "Attest", slot |-> s, committees |-> C, ok |-> ok])
 
